@@ -78,6 +78,12 @@ def run(F, R):
                 if vmap.get(v) == "Enum":
                     enum_blocks |= blocks
         R.check(want <= got, "R15.3", "Serialize:%s:arms" % ty, b.where(), "arms %s" % sorted(got), "Serialize for %s lacks arms %s" % (ty, sorted(want - got)))
+        numser = [c for x in F.cone([b], stop=lambda y: not y.defp.startswith(V + "::")) if x.defp.startswith(V + "::") for c in x.calls()
+                  if (c.declared or "").endswith("Serialize::serialize") and any("serde_json::Number" in t or "number::Number" in t for t in c.argtys[:1])]
+        lossy = [c for x in F.cone([b], stop=lambda y: not y.defp.startswith(V + "::")) if x.defp.startswith(V + "::") for c in x.calls()
+                 if c.callee and re.search(r"::(as_f64|as_i64|as_u64)$", c.callee) or (c.declared or "").endswith("Serializer::serialize_f64") or (c.declared or "").endswith("Serializer::serialize_i64")]
+        R.check(bool(numser) and not lossy, "R15.3", "Serialize:%s:numbers-delegate-to-serde_json" % ty, b.where(), "Number serialised by serde_json::Number itself",
+                "numbers are re-encoded through %s instead of serde_json::Number's own Serialize: integers above i64::MAX become floats" % sorted({(c.callee or c.declared).split("::")[-1] for c in lossy}))
         es = [c for c in b.calls() if c.bb in enum_blocks and c.declared and c.declared.endswith("Serializer::serialize_str")]
         R.check(bool(es), "R15.3", "Serialize:%s:Enum-as-str" % ty, b.where(), "Enum -> serialize_str", "Enum is not serialised as a string")
     vis = [i for i in F.impls_of(r"serde(_core)?::de::Visitor$") if i["def"].startswith(V + "::value_serde")]
